@@ -73,10 +73,6 @@ try:
                     first = line.strip()[:300]
                     break
             results[chk] = {"verdict": {0: "MISSED", 1: "CAUGHT", 2: "INCONCLUSIVE"}.get(rc, "rc=%d" % rc), "first_failure": first, "wall_s": round(time.time() - t0, 1)}
-            rd = os.path.join(ROOT, "replays", chk)
-            for f in os.listdir(rd) if os.path.isdir(rd) else []:
-                if ".quick.seed" in f:
-                    os.remove(os.path.join(rd, f))
         meta["checks_quick"] = results
         meta["what_was_run"] = "fresh worktree of /repo HEAD: `go test ./seeddemo/...` (pass) ; git apply patch.diff ; go build ./pkg/... ; baseline packages ; `go test ./seeddemo/...` (fail) ; VERIF_REPO=<worktree> ./check <id> quick"
         notes = os.path.join(d, "notes.md")
